@@ -352,15 +352,21 @@ func (h *Hub) run() {
 func (h *Hub) topicsStateForUser(uid types.Uid, suspended bool) {
 	h.topics.Range(func(name any, t any) bool {
 		topic := t.(*Topic)
-		if topic.cat == types.TopicCatMe || topic.cat == types.TopicCatFnd {
+		// This function runs in its own goroutine: topic.perUser belongs to the topic's goroutine and
+		// must not be read here, and a topic which is still being initialized (paused) has no category
+		// or owner yet: it picks the state up from the store. The category and the participants of
+		// a P2P topic are known from the topic name.
+		if topic.isInactive() {
+			return true
+		}
+		cat := topicCat(name.(string))
+		if cat == types.TopicCatMe || cat == types.TopicCatFnd {
 			return true
 		}
 
-		// This function runs in its own goroutine: topic.perUser belongs to the topic's goroutine and
-		// must not be read here. The participants of a P2P topic are known from the topic name.
 		isMember := false
-		if topic.cat == types.TopicCatP2P {
-			if uid1, uid2, err := types.ParseP2P(topic.name); err == nil {
+		if cat == types.TopicCatP2P {
+			if uid1, uid2, err := types.ParseP2P(name.(string)); err == nil {
 				isMember = uid1 == uid || uid2 == uid
 			}
 		}
